@@ -77,24 +77,29 @@ const (
 
 // next gets the next rune from the input.
 func (l *lexer) next() (r rune) {
-	if l.pos >= len(l.input) {
+	// refill when the window is used up or ends inside a multi-byte rune
+	for l.pos >= len(l.input) || !utf8.FullRuneInString(l.input[l.pos:]) {
 		s, ok := <-l.inputs
 		for ok && s == "" {
 			// a zero-byte read is not the end of input
 			s, ok = <-l.inputs
 		}
 		if !ok {
-			if l.pos == l.start {
+			if l.pos >= len(l.input) && l.pos == l.start {
 				l.width = 0
 				return eof
 			}
 			// continue with leftover + s
 		}
-		l.input = l.input[l.start:l.pos] + s
+		rest := len(l.input) - l.start
+		l.input = l.input[l.start:] + s
 		l.posShift += l.start
-		l.lpUpd(s, l.posShift+l.pos-l.start)
+		l.lpUpd(s, l.posShift+rest)
 		l.pos -= l.start
 		l.start = 0
+		if !ok {
+			break
+		}
 	}
 	r, l.width = utf8.DecodeRuneInString(l.input[l.pos:])
 	if l.width == 0 {
